@@ -167,3 +167,6 @@ package domain
 //@ interface ModelRegistry.RegisterModels
 //@   modifies gvar regCalls
 //@   records regCalls = old(regCalls) + 1
+
+// a metrics record taken from a backend's response holds finite numbers only
+//@ spec func finiteMetrics(m *ProviderMetrics) bool = !isNaN(m.TokensPerSecond) && !isInf(m.TokensPerSecond)
